@@ -238,6 +238,7 @@ pub struct VerifConnState<PacketIdType> {
     pub publish_send_max: Option<u16>,
     pub publish_recv_max: Option<u16>,
     pub publish_send_count: u16,
+    pub publish_send_counted: Vec<PacketIdType>,
     pub publish_recv: Vec<PacketIdType>,
     pub maximum_packet_size_send: u32,
     pub maximum_packet_size_recv: u32,
@@ -303,6 +304,7 @@ where
             publish_send_max: self.publish_send_max,
             publish_recv_max: self.publish_recv_max,
             publish_send_count: self.publish_send_count,
+            publish_send_counted: sorted(&self.publish_send_counted),
             publish_recv: sorted(&self.publish_recv),
             maximum_packet_size_send: self.maximum_packet_size_send,
             maximum_packet_size_recv: self.maximum_packet_size_recv,
